@@ -10,6 +10,25 @@ def calls_named(unit, text):
     return [c for c in own_nodes(unit.node) if isinstance(c, ast.Call) and call_text(c) == text]
 
 
+def _sources(u, name):
+    """closed text of everything that can flow into the local `name` (its assignments, the iterables of the loops
+    whose variable is assigned to it), for a local bound several times (selection written as a loop)."""
+    from ..defuse import closed_text
+    seen, todo, txt = set(), [name], []
+    while todo:
+        k = todo.pop()
+        if k in seen:
+            continue
+        seen.add(k)
+        for n in own_nodes(u.node):
+            if isinstance(n, ast.Assign) and any(isinstance(t, ast.Name) and t.id == k for t in n.targets):
+                txt.append(closed_text(u, n.value))
+                todo += [x.id for x in ast.walk(n.value) if isinstance(x, ast.Name)]
+            elif isinstance(n, ast.For) and any(isinstance(t, ast.Name) and t.id == k for t in ast.walk(n.target)):
+                txt.append(closed_text(u, n.iter))
+    return ' '.join(txt)
+
+
 def run(P, R):
     fsm = Fsm(P)
     T = fsm.transitions
@@ -161,9 +180,10 @@ def run(P, R):
                  or f[1] and f[0].startswith('self.supvisors.options.supvisors_failure_strategy == SupvisorsFailureStrategies.')]
         # "a failure": the truthy first non-None result of the four failure checks (closed form: no local names)
         closed = factmap(u).closed(node) if node is not None else set()
-        failing = any(pol and all(x in t for x in ('self._check_user_failure()', 'self._check_core_failure()',
-                                                   'self._check_strict_failure()', 'self._check_list_failure()'))
-                      and t.startswith('next(') for t, pol in closed)
+        CHECKS = ('self._check_user_failure()', 'self._check_core_failure()', 'self._check_strict_failure()',
+                  'self._check_list_failure()')
+        failing = any(pol and all(x in t for x in CHECKS) and t.startswith('next(') for t, pol in closed) or \
+            any(pol and t.isidentifier() and all(x in _sources(u, t) for x in CHECKS) for t, pol in closed)
         seen[k] = (strat, failing, node)
     want = {'SYNCHRONIZATION': 'RESYNC', 'SHUTTING_DOWN': 'SHUTDOWN'}
     for k, s in want.items():
